@@ -256,6 +256,11 @@ impl FileHasher<'_> {
             .and_then(|(c, m)| c.key(chunk, m).ok());
         let key = key.as_ref();
         let hash = self.load_hash(key, metadata);
+        #[cfg(fclones_verif)]
+        if cache.is_some() {
+            let kind = if hash.is_some() { "cache.hit" } else { "cache.miss" };
+            crate::verif::event(kind, &chunk.path.to_escaped_string());
+        }
         if let Some((_, hash)) = hash {
             progress(chunk.len.0 as usize);
             return Ok(hash);
@@ -316,6 +321,11 @@ impl FileHasher<'_> {
             .and_then(|(c, m)| c.key(chunk, m).ok());
         let key = key.as_ref();
         let hash = self.load_hash(key, metadata);
+        #[cfg(fclones_verif)]
+        if cache.is_some() {
+            let kind = if hash.is_some() { "cache.hit" } else { "cache.miss" };
+            crate::verif::event(kind, &chunk.path.to_escaped_string());
+        }
         if let Some(hash) = hash {
             progress(chunk.len.0 as usize);
             return Ok(hash);
